@@ -343,7 +343,8 @@ def replay(payload):
                     gw.start_persistence() if flavour == "sync" else start_async(gw)
                 except BaseException as e:  # noqa: BLE001
                     exc = type(e).__name__
-            want = pu.project(other) if r["backup_len"] == len(bak_good) else "-"
+            pu.put(os.path.join(work, f"b.{fmt}"), bak_good)
+            want = pu.project(pu.fresh_load(os.path.join(work, f"b.{fmt}"))[1]) if r["backup_len"] == len(bak_good) else "-"
             got = pu.project(gw.sensors)
             print(f"start_persistence() of the {flavour} gateway: raised {exc}; loaded {got[:300]!r}; expected {want[:300]!r}")
             return 1 if exc or got != want else 0
